@@ -109,7 +109,7 @@ func classifyErr(err error) string {
 }
 
 // lastLineBlank tells whether the part after the last '\n' is non-empty and consists of spaces only: the blobs
-// on which FileDiff with WhitespaceIgnore is known to count one line less than CountLines (finding F9).
+// on which FileDiff with WhitespaceIgnore used to count one line less than CountLines (finding F9, repaired).
 func lastLineBlank(b []byte) bool {
 	i := len(b)
 	for i > 0 && b[i-1] == ' ' {
@@ -234,39 +234,16 @@ func run(in input) (obs []Sx) {
 	return obs
 }
 
-// Cases of the open finding F9 are reported one by one as known findings; lib/check.py resolves the case lines
-// of at most 2000 findings per run, so their number is capped (and the exhaustive scopes are thinned).
-var (
-	wsLastBlankSeen    int
-	wsLastBlankEmitted int
-)
-
-const wsLastBlankCap = 1500
-
 func emit(c *Config, in input) {
 	kind := in.kind
 	if in.ws && (lastLineBlank(in.a) || lastLineBlank(in.b)) {
-		// separate kind: WhitespaceIgnore and a blob whose last line is non-empty and all spaces
+		// kind of its own: WhitespaceIgnore and a blob whose last line is non-empty and all spaces (the class of
+		// the repaired finding F9)
 		kind = "wslastblank"
-		if c.Replay == "" {
-			wsLastBlankSeen++
-			stride := 1
-			if strings.HasPrefix(in.kind, "exh") {
-				stride = 8
-				if c.Thorough() {
-					stride = 256
-				}
-			} else if c.Thorough() {
-				stride = 16
-			}
-			if wsLastBlankSeen%stride != 0 || wsLastBlankEmitted >= wsLastBlankCap {
-				return
-			}
-			wsLastBlankEmitted++
-		}
 	}
 	if distinctLines(api.StripWhitespace(string(in.a), in.ws), api.StripWhitespace(string(in.b), in.ws)) > 55295 {
-		// separate kind: the line ids of DiffLinesToRunes reach the UTF-16 surrogate range 0xD800..0xDFFF
+		// kind of its own: the line ids of DiffLinesToRunes reach the UTF-16 surrogate range 0xD800..0xDFFF (the
+		// class of the repaired finding F15)
 		kind = "surrogate"
 	}
 	obs := run(in)
